@@ -9,7 +9,7 @@ import gtree as T           # noqa: E402
 import chem                 # noqa: E402
 
 PROP = "C10"
-DEPS = ["Model/Gate.v", "Spec/Chem.v", "Spec/Iso.v", "Gen/Grammar.v", "Gen/Tables.v"]
+DEPS = ["Model/Gate.v", "Spec/Chem.v", "Spec/Iso.v", "Gen/Grammar.v", "Gen/Tables.v", "Gen/Methods.v", "Proofs/MethodsThm.v"]
 
 
 def unsupported_tokens(drv):
